@@ -10,6 +10,7 @@ parent after the child was reaped."""
 from __future__ import annotations
 
 import hashlib
+import json
 import os
 import signal
 import time
@@ -32,8 +33,8 @@ RULE = ("case = one configuration (differential) or one (configuration, crash po
 ASSUMPTIONS = ["Linux /proc", "the harness puts /venv/bin on PATH so that the plug-in runner script is found", "population methods get an explicit seed option"]
 CASE_TIMEOUT = 240
 SHARD_TIMEOUT = {"quick": 900, "thorough": 7200}
-REQUIRED = {"quick": {"external_runs": 25, "trace_pairs_compared": 8, "kill_runs": 8, "evaluator_exception_runs": 3, "process_table_checked": 25, "messages_counted": 100, "explicit_start_vector_pairs": 3, "__nontrivial__": 20},
-            "thorough": {"external_runs": 300, "trace_pairs_compared": 80, "kill_runs": 120, "evaluator_exception_runs": 50, "process_table_checked": 300, "messages_counted": 2000, "__nontrivial__": 250}}
+REQUIRED = {"quick": {"external_runs": 25, "trace_pairs_compared": 8, "kill_runs": 8, "evaluator_exception_runs": 3, "process_table_checked": 25, "messages_counted": 100, "messages_beyond_one_pipe_buffer": 7, "explicit_start_vector_pairs": 3, "__nontrivial__": 20},
+            "thorough": {"external_runs": 300, "trace_pairs_compared": 80, "kill_runs": 120, "evaluator_exception_runs": 50, "process_table_checked": 300, "messages_counted": 2000, "messages_beyond_one_pipe_buffer": 70, "__nontrivial__": 250}}
 N = {"quick": {"diff": 27, "kill": 3, "exc": 2}, "thorough": {"diff": 270, "kill": 30, "exc": 20}}
 MAX_ROUNDS_AFTER_DEATH = 6
 
@@ -55,6 +56,10 @@ def gen_spec(rng, i):
     # powell, cg and bfgs ask again for a point of an earlier line search: every request has to reach the parent
     method = ["slsqp", "cobyla", "l-bfgs-b", "nelder-mead", "differential_evolution", "slsqp", "powell", "cg", "bfgs"][i % 9]
     V, R, P = int(rng.integers(2, 4)), int(rng.integers(1, 3)), 2
+    big = i % 4 == 3
+    if big:
+        # messages far beyond one pipe buffer (4096 bytes): the configuration and every evaluation request / answer
+        V = 6 if method == "differential_evolution" else int(rng.integers(250, 400))
     n_con = int(rng.integers(0, 2)) if method in ("slsqp", "cobyla", "differential_evolution") else 0
     F = 1 + n_con
     spec = {"V": V, "R": R, "P": P, "rweights": [1.0] * R, "oweights": [1.0], "n_con": n_con, "x0": rng.uniform(-0.3, 0.3, size=V).tolist(), "seed": int(rng.integers(1, 999)),
@@ -70,6 +75,9 @@ def gen_spec(rng, i):
     if method == "differential_evolution":
         spec["lb"], spec["ub"] = [-1.0] * V, [1.0] * V
         spec["optimizer"] = {"method": method, "options": {"seed": int(rng.integers(1, 99)), "popsize": 2, "maxiter": 1, "tol": 0.9}, "parallel": bool(rng.random() < 0.5)}
+        if big:
+            spec["optimizer"]["options"]["popsize"] = 15
+            spec["optimizer"]["parallel"] = True
         spec["rmin"] = 0 if rng.random() < 0.5 else 1
     else:
         if rng.random() < 0.4 and method != "cobyla":
@@ -77,7 +85,9 @@ def gen_spec(rng, i):
             if rng.random() < 0.5:
                 spec["ptypes"], spec["magnitudes"] = [2] * V, [0.01]
         spec["optimizer"] = {"method": method, "max_iterations": 2, "options": {"maxiter": 2}, "speculative": bool(rng.random() < 0.3), "split_evaluations": bool(rng.random() < 0.3)}
-        if method in ("powell", "cg", "bfgs"):
+        if big:
+            spec["optimizer"].update({"max_iterations": 1, "options": {"maxiter": 1}, "max_functions": 3})
+        elif method in ("powell", "cg", "bfgs"):
             # long enough for a second line search (that is where an earlier point is asked for again)
             spec["optimizer"].update({"max_iterations": 4, "options": {"maxiter": 4}, "speculative": False})
             if rng.random() < 0.5:
@@ -122,6 +132,7 @@ class Pipes:
 
     def __init__(self):
         self.writes = 0
+        self.big_writes = 0
         self.rounds_after_death = 0
         self.kill_after = None
         self.kill_signal = signal.SIGKILL
@@ -146,6 +157,8 @@ class Pipes:
             ok = me._orig[1](self_, data)
             if ok:
                 me.writes += 1
+                if len(json.dumps(data, default=lambda o: o.tolist())) > 4096:
+                    me.big_writes += 1
                 if me.kill_after is not None and me.writes == me.kill_after + 1 and me.killed is None:
                     for pid in _children():
                         os.kill(pid, me.kill_signal)
@@ -277,6 +290,7 @@ def run_case(case, obs):
             pipes.remove()
         obs.count("external_runs")
         obs.count("messages_counted", pipes.writes)
+        obs.count("messages_beyond_one_pipe_buffer", pipes.big_writes)
         if pipes.writes:
             obs.nontrivial(case)
         else:
